@@ -256,4 +256,6 @@ func init() {
 		"	t.disconnectObserver = attachIndexObserver[K, E](\n		override.Nil[observe.Observable[kv.TxReader]](cfg.DB, cfg.DB.IndexObservable),\n		cfg.DB,\n		cfg.Indexes,\n	)\n	// Populate runs on an isolated signal context: the caller's ctx is the\n	// open-operation ctx (may be short-lived, e.g. an open timeout), but\n	// populate must run for the Table's full lifetime. Termination flows\n	// through Table.Close().\n	sCtx, cancel := signal.Isolated(signal.WithInstrumentation(cfg.Instrumentation))\n	t.populateDone = sCtx.Stopped()\n	t.populateShutdown = signal.NewHardShutdown(sCtx, cancel)\n	sCtx.Go(\n		func(ctx context.Context) error {\n			t.runPopulate(ctx, cfg.Instrumentation, inserts, finishes)\n			return nil\n		},\n		signal.WithKey(\"gorp_index_populate\"),\n	)\n	return t, nil\n}\n\n// runPopulate scans", "	// Populate runs on an isolated signal context: the caller's ctx is the\n	// open-operation ctx (may be short-lived, e.g. an open timeout), but\n	// populate must run for the Table's full lifetime. Termination flows\n	// through Table.Close().\n	sCtx, cancel := signal.Isolated(signal.WithInstrumentation(cfg.Instrumentation))\n	t.populateDone = sCtx.Stopped()\n	t.populateShutdown = signal.NewHardShutdown(sCtx, cancel)\n	sCtx.Go(\n		func(ctx context.Context) error {\n			t.runPopulate(ctx, cfg.Instrumentation, inserts, finishes)\n			return nil\n		},\n		signal.WithKey(\"gorp_index_populate\"),\n	)\n	t.disconnectObserver = attachIndexObserver[K, E](\n		override.Nil[observe.Observable[kv.TxReader]](cfg.DB, cfg.DB.IndexObservable),\n		cfg.DB,\n		cfg.Indexes,\n	)\n	return t, nil\n}\n\n// runPopulate scans", "C17.R5.populate")
 	mut("C07", "the iterator's peer sender forwards only the per-command fields", "core/pkg/distribution/framer/iterator/peer.go",
 		"	out = in\n", "	out = Request{Command: in.Command, Span: in.Span, Stamp: in.Stamp, SeqNum: in.SeqNum}\n", "C07.R7.copy")
+	mut("C08", "a streamer request is not renegotiated while the codec is still on its first state", "core/pkg/transport/http/framer/codec.go",
+		"	if len(v.Payload.Keys) == 0 {\n		return nil\n	}\n	return c.Update(ctx, v.Payload.Keys)\n}\n\nfunc (c *Codec) decodeIteratorRequest(", "	if len(v.Payload.Keys) == 0 {\n		return nil\n	}\n	if c.LowerPerfCodec == nil {\n		return nil\n	}\n	return c.Update(ctx, v.Payload.Keys)\n}\n\nfunc (c *Codec) decodeIteratorRequest(", "C08.R8.update")
 }
